@@ -91,6 +91,9 @@ def sched_catalogue(prop, tier, drv=0, precs_extra=True, light=False):
     j.append(S('dense1', 3, 2, drv=drv)); j.append(S('dense2', 3, 1 if q else 2, drv=drv)); j.append(S('chain3', 4, 1, drv=drv))
     # dynamic supernode storage
     j.append(S('fork3', 2, b2, drv=drv, dyn=1)); j.append(S('tree7', 2, 1, drv=drv, dyn=1)); j.append(S('lower5', 2, 1 if q else 2, drv=drv, w=4, ms=4, dyn=1))
+    # two regular panels of independent trees reserve their dynamic slots at the same time (seeded change C03-6: slot cursor read before the lock; needs 2 preemptions)
+    if not (light and q):
+        j.append(S('two6', 2, 2, drv=drv, dyn=1))
     # other precisions: K1-K4 + K8 (the twins are separate translation units)
     for p in 'scz':
         j.append(S('chain4', 2, 1 if q else 2, prec=p, drv=drv)); j.append(S('fork3', 2, b2, prec=p, drv=drv))
@@ -188,12 +191,23 @@ def race_jobs(prop, tier):
             a += ['--model', '0']
         job['args'] = a
         out.append(job)
+    r = sjob(prop, 'two6', 2, 2, drv=0, dyn=1, model=0); r['variant'] = 'sr'; r['cflags'] = ['-DVF_RACE']; out.append(r)
+    if tier != 'quick':
+        r = sjob(prop, 'tree7', 2, 2, drv=0, dyn=1, model=0); r['variant'] = 'sr'; r['cflags'] = ['-DVF_RACE']; out.append(r)
     return out
 
 
 def jobs_C04(tier):
     j = sched_catalogue('C04', tier, drv=0) + proto_jobs('C04', tier) + forest_conformance_jobs('C04', tier)
     j += [sjob('C04', 'tree7', 2, 1, drv=1), sjob('C04', 'fork3', 3, 1 if tier == 'quick' else 2, drv=2), sjob('C04', 'fork3', 2, 2, drv=2)]
+    # K17 under the C04 oracles (added after seeded change C04-6 was missed: ?user_malloc returned with its lock held when the caller's workspace is full, so the first worker
+    # whose work arrays do not fit left every other worker blocked for ever): workspace = smallest size that serves ONE worker + 64*k bytes, re-factorization with P workers
+    # (no conformance replay: a worker that gives up for lack of memory is outside the protocol model)
+    for k in ((0, 1, 2) if tier == 'quick' else range(0, 8)):
+        j.append(sjob('C04', 'dense4', 2, 1, refact=1, vk=1, vk2=8, usepr=1, ms=4, lwrel=k, model=0))
+    j.append(sjob('C04', 'two6', 2, 1, refact=1, vk=1, vk2=0, usepr=0, lwrel=1, model=0)); j.append(sjob('C04', 'tree7', 3, 1, refact=1, vk=1, vk2=0, usepr=0, lwrel=0, model=0))
+    for p in 'scz':
+        j.append(sjob('C04', 'dense4', 2, 1, prec=p, refact=1, vk=1, vk2=8, usepr=1, ms=4, lwrel=0, model=0))
     return j
 
 
@@ -441,6 +455,13 @@ def jobs_hist(prop, tier):
         j.append(sjob('C08', 'two6', 2, 1, refact=1, vk=1, vk2=0, usepr=0, lwrel=1)); j.append(sjob('C08', 'tree7', 3, 1, refact=1, vk=1, vk2=0, usepr=0, lwrel=0))
         for p in ('z' if q else 'scz'):
             j.append(sjob('C08', 'dense4', 2, 1, prec=p, refact=1, vk=1, vk2=8, usepr=1, ms=1))
+        # re-factorization inside a caller-supplied workspace of EVERY size (mchist --lwsweep, the refact-lwork family of C14 judged for C08), all precisions (seeded change C08-6)
+        for p in 'sdcz':
+            for tight in (0, 1):
+                for i in range(2 if q else 4):
+                    j.append({'engine': 'mchist/mchist.c', 'variant': 'q', 'prec': p, 'args': ['--prop', 'C08', '--lwsweep', '1', '--tight', str(tight), '--pat', '0', '--slice', '%d/%d' % (i, 2 if q else 4)]})
+        for p in 'scz':
+            j.append(sjob('C08', 'dense4', 2, 1, prec=p, refact=1, vk=1, vk2=8, usepr=1, ms=4, lwrel=1))
         if not q:
             j.append(sjob('C08', 'dense5', 2, 2, refact=1, vk=1, vk2=8, usepr=1, ms=1)); j.append(sjob('C08', 'tree7', 3, 1, refact=1, vk=1, vk2=8, usepr=1)); j.append(sjob('C08', 'dense4', 3, 2, refact=1, vk=1, vk2=0, usepr=1, ms=1))
         for pat in (0, 1):
@@ -503,6 +524,10 @@ def jobs_C10(tier):
             j += order('q', p, 'sq', n, 'full')
         for n in (2, 3, 4):
             j += order('q', p, 'rect', n, 'full')
+    # family comp: every sequence of small components (isolated vertex, edge, path, triangle, star, 4-cycle) with 5..8 vertices x 4 relabelings x symmetric/one-sided (seeded change C10-6)
+    for p in 'sdcz':
+        for n in (5, 6, 7, 8):
+            j += order('q', p, 'comp', n, 'quick')
     if tier == 'quick':
         j += order('q', 'd', 'sq', 4, 'quick', slices=NS)
     else:
@@ -557,8 +582,8 @@ def jobs_C14(tier):
     # refactorization inside a user workspace (added after seeded change C14/3 was missed):
     #  - refact-lwork (mchist --lwsweep): first factorization with one thread into a workspace of EVERY size (steps of 8 bytes), then re-factorizations with 2-3 threads
     #    and new values in the same workspace, default and tight sp_ienv(7)/(8); workers inline
-    for p in ('d' if q else 'sdcz'):
-        for pat in ((0, 3) if q else (0, 1, 2, 3)):
+    for p in 'sdcz':        # quick: the other precisions on pattern 0 only (seeded change C08-6 sat in psmemory.c)
+        for pat in (((0, 3) if p == 'd' else (0,)) if q else (0, 1, 2, 3)):
             for tight in (0, 1):
                 for i in range(2 if q else 8):
                     j.append({'engine': 'mchist/mchist.c', 'variant': 'q', 'prec': p, 'args': ['--prop', 'C14', '--lwsweep', '1', '--tight', str(tight), '--pat', str(pat), '--slice', '%d/%d' % (i, 2 if q else 8)]})
@@ -665,7 +690,7 @@ SPECS = {
                             'triangular solves are judged by the componentwise backward-error bound gamma(n+2)|T||x| with L,U as stored', 'NCP (permuted view) inputs to sp_?gemv are outside the statement and switched off (--ncp 0)'],
             'deadline': {'quick': 300, 'thorough': 3600}},
     'C10': {'jobs': jobs_C10, 'level': 'exploration',
-            'rule': 'exhaustive enumeration: every 0/1 pattern m x n, m,n <= 4 (all bit masks; thorough: also every full-diagonal 5x5 pattern) x get_perm_c option 0..3 x SymmetricMode NO/YES x every one of the n! caller orderings (quick: on every 17th 4x4 pattern); '
+            'rule': 'exhaustive enumeration: every 0/1 pattern m x n, m,n <= 4 (all bit masks; thorough: also every full-diagonal 5x5 pattern) and every component forest with 5..8 vertices (all sequences of {K1,P2,P3,K3,P4,star4,C4} x 4 relabelings x symmetric/upper-only, caller orderings not enumerated there) x get_perm_c option 0..3 x SymmetricMode NO/YES x every one of the n! caller orderings (quick: on every 17th 4x4 pattern); '
                     'a case is one call of get_perm_c / sp_coletree / sp_colorder judged against a brute-force symbolic-Cholesky reference; distinct_outcomes counts distinct (pattern, stage, input order, output order, etree, partition, counts)',
             'assumptions': ['column counts are judged only where their derivation applies (symmetric mode, or zero-free diagonal of A*Pc)', 'sp_colorder is only called on square matrices (qrnzcnt indexes n-sized arrays by row number)',
                             'the sampled part of the quantifier (n ~ 300) is not part of this technique'],
